@@ -50,7 +50,7 @@ func NewMachine(P *Program, solverName string, timeoutMs int) *Machine {
 	tb := NewTermTable()
 	m := &Machine{P: P, tb: tb, solver: NewSolver(solverName, tb, timeoutMs),
 		frozenGlobals: map[*ssa.Global]*Value{}, frozenInited: map[*ssa.Package]bool{},
-		intrCache: map[*ssa.Function]Intrinsic{}, StubsUsed: map[string]bool{}, FuncsEncoded: map[string]bool{}}
+		intrCache: map[*ssa.Function]Intrinsic{}, yieldCache: map[*ssa.FieldAddr]bool{}, StubsUsed: map[string]bool{}, FuncsEncoded: map[string]bool{}}
 	m.side = map[interface{}]interface{}{}
 	m.varCount = map[string]int{}
 	m.pcSet = map[int]bool{}
